@@ -179,6 +179,7 @@ func scenarioStart(c *hlib.RunCtx) *hlib.Violation {
 		}
 		s.Probe(fmt.Sprintf("debug-dir-%d", debugState))
 	}
+	var excused *simrt.Proc // the process whose read of the mode file failed (mode off)
 	failStart := -1
 	if t.Bool(1, 5) {
 		failStart = t.Draw(3) // the n-th start of a telemetry child fails
@@ -202,9 +203,10 @@ func scenarioStart(c *hlib.RunCtx) *hlib.Violation {
 		s.FaultFn = func(c *simrt.FsCall) error {
 			if c.Idx == failIdx {
 				if strings.HasSuffix(c.Path, "/mode") && mode == "off" {
-					// an unreadable mode file behaves as local (C02): for this run
-					// the recorded mode is not what every reader saw
+					// an unreadable mode file behaves as local (C02): the process whose
+					// read failed did not see "off"; every other process did
 					mode = "off-but-unreadable-once"
+					excused = c.Proc
 				}
 				return errno
 			}
@@ -217,6 +219,13 @@ func scenarioStart(c *hlib.RunCtx) *hlib.Violation {
 	var spawnedTelemetry []*simrt.Proc
 	tokenCreates := map[*simrt.Proc]int{}
 	var acquisitions []time.Time
+	type acq struct {
+		at           time.Time
+		idx, statIdx int // call-log index of the exclusive create, and of that process's last look at the token before it
+		proc         *simrt.Proc
+	}
+	var acqs []acq
+	lastTokenStat := map[*simrt.Proc]int{}
 	runStart := func(p *simrt.Proc) {
 		st := info[p]
 		s.Spawn(p, p.Name, func() {
@@ -282,9 +291,16 @@ func scenarioStart(c *hlib.RunCtx) *hlib.Violation {
 			if fc.Proc == nil {
 				continue
 			}
+			if fc.Op == "stat" && strings.HasSuffix(fc.Path, "upload.token") {
+				lastTokenStat[fc.Proc] = 0
+				if fc.Err == nil {
+					lastTokenStat[fc.Proc] = fc.Idx // it saw a token (a look that finds none says nothing: a process that saw a stale token may have removed a fresh one meanwhile)
+				}
+			}
 			if fc.Op == "create-excl" && fc.Err == nil && strings.HasSuffix(fc.Path, "upload.token") {
 				tokenCreates[fc.Proc]++
 				acquisitions = append(acquisitions, s.NowT())
+				acqs = append(acqs, acq{at: s.NowT(), idx: fc.Idx, statIdx: lastTokenStat[fc.Proc], proc: fc.Proc})
 			}
 			if mode == "off" && fc.Mutating && fc.Err == nil {
 				fail("write-in-off", "mode is off but process %d performed %s on %s", fc.Proc.ID, fc.Op, fc.Path)
@@ -410,6 +426,32 @@ func scenarioStart(c *hlib.RunCtx) *hlib.Violation {
 		}
 		if len(spawnedTelemetry) > 0 {
 			fail("spawn-in-off", "mode is off but %d children were launched", len(spawnedTelemetry))
+		}
+	}
+	if mode == "off-but-unreadable-once" {
+		// the off clauses still hold for every process but the excused one
+		for _, fc := range s.CallLog {
+			if fc.Mutating && fc.Err == nil && fc.Proc != excused && strings.HasPrefix(fc.Path, "tele/") {
+				fail("write-in-off", "mode is off (one other process could not read the mode file) but process %d performed %s on %s", fc.Proc.ID, fc.Op, fc.Path)
+				break
+			}
+		}
+		for _, ch := range spawnedTelemetry {
+			if ch.Parent != excused {
+				fail("spawn-in-off", "mode is off (one other process could not read the mode file) but process %d launched a child", ch.Parent.ID)
+			}
+		}
+		s.Probe("off-clauses-for-the-other-processes")
+	}
+	// In every family: an acquisition leaves a fresh token behind, so the next one
+	// is at least the token period later.
+	// (A process that looked at the token before that acquisition may have seen a
+	// stale one: the statement's clause is for "no stale token present".)
+	for i := 1; i < len(acqs); i++ {
+		for j := 0; j < i; j++ {
+			if d := acqs[i].at.Sub(acqs[j].at); acqs[i].statIdx > acqs[j].idx && d < 24*time.Hour && acqs[i].proc != acqs[j].proc {
+				fail("token-acquired-twice", "the upload token was acquired at %s; process %d looked at that fresh token afterwards and acquired it again %s later, within the token period", acqs[j].at.Format(time.RFC3339), acqs[i].proc.ID, d)
+			}
 		}
 	}
 	// with no stale token present, at most one acquisition within 24 hours
